@@ -7,7 +7,7 @@ from ..rules import simplex, johnson, mink, runmin, unpack, ericson, misc2
 def run(idx, rep, tier):
     rep.set_scope(scopes.scope(idx, "C18"))
     rep.explanation = (
-        "R-JOHNSONREC: every cofactor stored into BarycentricCoordinates.d is Johnson's recursion Delta_j(X+j) = sum_i Delta_i(X) y_i.(y_k - y_j), with every factor resolved through local definitions, negations, call-site parameters and results of the other coordinate methods. "
+        "R-JOHNSONOPT: the test in front of every sub-simplex of the main sub-algorithm expands (predicate methods inlined, De Morgan) to exactly Johnson's optimality condition. R-JOHNSONREC: every cofactor stored into BarycentricCoordinates.d is Johnson's recursion Delta_j(X+j) = sum_i Delta_i(X) y_i.(y_k - y_j), with every factor resolved through local definitions, negations, call-site parameters and results of the other coordinate methods. "
         "Table rules over the two simplex solvers. Jolt: sub-solver masks remapped to the right vertex bits for every "
         "possible mask, by constant evaluation of the integer remap expression (R-BITMAP); returned masks name exactly the "
         "vertices the returned point is built from (R-MASKPOINT); each plane test guards the face it tests with the opposite "
@@ -23,6 +23,7 @@ def run(idx, rep, tier):
     simplex.r_solverdispatch(idx, rep)
     johnson.r_johnson(idx, rep)
     johnson.r_johnsonrec(idx, rep)
+    johnson.r_johnsonopt(idx, rep)
     runmin.r_runmin(idx, rep, ["distance3d.gjk._gjk_jolt"], floor=2)
     ericson.r_ericson(idx, rep)
     misc2.r_dupcond(idx, rep, [m.name for m in idx.lib_modules()], floor=3)
